@@ -4,6 +4,7 @@ CONSTANTS
   Ufuncs <- T_None
   Methods <- T_None
   DKinds <- T_None
+  OutRK <- T_None
   AsDtypes <- T_None
   MaxDepth = 0
   FreeDepth = 0
